@@ -201,15 +201,15 @@ func verifDir() string {
 }
 
 type Finish struct {
-	Explanation  string
-	Rule         string
-	TrustedBase  []string
-	CheckerCmd   string
-	Seed         int
-	Start        time.Time
-	Extra        map[string]interface{}
-	NoEvidence   bool // sub-runs (mutants) do not write evidence
-	Quiet        bool
+	Explanation string
+	Rule        string
+	TrustedBase []string
+	CheckerCmd  string
+	Seed        int
+	Start       time.Time
+	Extra       map[string]interface{}
+	NoEvidence  bool // sub-runs (mutants) do not write evidence
+	Quiet       bool
 }
 
 // Finalize matches violations against the known-findings file, writes the
